@@ -398,13 +398,17 @@ func (c *Ctx) cursorFreshness() {
 				if st.Field(i).Name() == "pruned" {
 					if mt, ok := st.Field(i).Type().Underlying().(*types.Map); ok {
 						desc = mt.Key().String()
-						_, isPtr := mt.Key().Underlying().(*types.Pointer)
-						okv = !isPtr
+						// a position is a path of up to 1024 reference indexes: neither a cell pointer (identity is
+						// shared between positions) nor a fixed-width integer (deep paths wrap around and collide
+						// with shallow ones) can represent it
+						if b, ok := mt.Key().Underlying().(*types.Basic); ok && b.Kind() == types.String {
+							okv = true
+						}
 					}
 				}
 			}
 		}
-		c.check(okv, R, "the pruning set is keyed by position, not by cell identity", n.Obj().Pos(), "key type "+desc, "Cursor.pruned is keyed by "+desc+": a cell that occurs at several positions (identical subtrees are one object after deserialization) is pruned everywhere, e.g. Hashmap{0x00:7, 0x80:7} parsed from a BoC yields proofs that reveal no entry")
+		c.check(okv, R, "the pruning set is keyed by position, not by cell identity", n.Obj().Pos(), "key type "+desc, "Cursor.pruned is keyed by "+desc+" (a position of the tree - a path of up to 1024 reference indexes - needs an unbounded key such as a string; a cell pointer is shared between positions, a fixed-width integer wraps for deep paths): a cell that occurs at several positions (identical subtrees are one object after deserialization) is pruned everywhere, e.g. Hashmap{0x00:7, 0x80:7} parsed from a BoC yields proofs that reveal no entry")
 	} else {
 		c.bad(R, "the pruning set is keyed by position, not by cell identity", 0, "type boc.Cursor not found")
 	}
